@@ -8,13 +8,13 @@ ID = 'C13'
 LEVEL = 'exploration'
 TIERS = {'quick': 12000, 'thorough': 600000}
 RULE = ('seeded sequences (length <= 6) over {connect-ok, connect-fail(transport refused | transport timeout | CNXN never answered | AUTH without keys | '
-        'non-token challenge), close, shell, exec_out, streaming_shell, root, reboot, list, stat, pull(path|BytesIO), push(path|BytesIO|directory), streaming_shell generators created in one state and iterated in another, or read half-way and let go of (close() / last reference dropped) after the connection went away; close() calls whose transport close raises} with empty and '
+        'non-token challenge), close, shell, exec_out, streaming_shell, root, reboot, list, stat, pull(path|BytesIO), push(path|BytesIO|directory), streaming_shell generators created in one state and iterated in another, or read half-way and let go of (close() / last reference dropped) after the connection went away; close() calls whose transport close raises, devices announcing maxdata < 4096, commands whose OPEN the device refuses} with empty and '
         'non-empty device paths, sync and async, against a two-state reference model of `available`; in the not-connected state every operation must raise '
         'AdbConnectionError (empty path: DevicePathInvalidError, in either state), the transport write log must not grow by one byte, no transport call may be '
         'made and the pull destination must not exist afterwards. non-trivial = the sequence contains a failed connect followed by an operation; '
         'distinct = event-log digests')
 ASSUMPTIONS = ['the <=5-step space is sampled by seed, not enumerated']
-EXPECT_PROBES = {'all': ['c13_failed_connect_then_op', 'c13_op_after_close', 'c13_empty_path', 'c13_reconnect_ok', 'c13_deferred_generator', 'c13_half_read_generator_dropped_unconnected', 'c13_transport_close_raised']}
+EXPECT_PROBES = {'all': ['c13_failed_connect_then_op', 'c13_op_after_close', 'c13_empty_path', 'c13_reconnect_ok', 'c13_deferred_generator', 'c13_half_read_generator_dropped_unconnected', 'c13_transport_close_raised', 'open_refused', 'c13_small_maxdata']}
 OPS = ['shell', 'exec_out', 'streaming_shell', 'streaming_shell', 'root', 'reboot', 'list', 'stat', 'pull', 'push']
 OWN = ('wrong-result', 'unexpected-exception', 'timeout-instead-of-result', 'missing-exception', 'wrong-exception', 'hang', 'no-termination',
        'bytes-written-unconnected', 'transport-call-unconnected', 'file-created-unconnected', 'available-wrong', 'push-content', 'push-missing', 'push-incomplete')
@@ -100,6 +100,14 @@ def generate(seed, tier):
                         plan.append('refused')
                 op = {'op': 'ss_consume', 'rt': 2.0}
             ops.append(op)
+    if g.chance(0.15):
+        d['maxdata'] = g.pick([256, 1024, 4095, 2048])      # a device announcing less than the legacy 4 KiB: accepted like any other value
+    if g.chance(0.25):
+        # the device refuses exec: (CLSE(0, id) instead of OKAY): that command times out, the connection -- and `available` -- stay as they are
+        d['refuse'] = ['exec:']
+        for op in ops:
+            if op['op'] == 'exec_out':
+                op.update({'rt': 0.5, 'tt': 0.3, 'expect_timeout': True})
     d['auth'] = auth if any(a for a in auth) else None
     if d['auth'] is None:
         d.pop('auth')
@@ -127,6 +135,8 @@ def evaluate(case, tapes=None):
             break
         if k == 'close' and op.get('fail'):
             pr['c13_transport_close_raised'] = 1
+        if k == 'connect' and rec['ok'] and scn['device']['maxdata'] < 4096:
+            pr['c13_small_maxdata'] = 1
         if k == 'connect':
             connected = op.get('expect_connect') == 'ok'
             last_connect_failed = not connected
